@@ -38,12 +38,41 @@ theorem nws_HASH : isWs HASH = false := by decide
 
 /-! ## `'%i'` and `int` -/
 
+theorem fmtIAux_fuel : ∀ (n fuel : Nat), n ≤ fuel → fmtIAux fuel n = fmtIAux n n := by
+  intro n
+  induction n using Nat.strong_induction_on with
+  | _ n ih =>
+    intro fuel hf
+    cases fuel with
+    | zero =>
+      have : n = 0 := by omega
+      subst this; rfl
+    | succ f =>
+      cases n with
+      | zero => simp [fmtIAux]
+      | succ m =>
+        simp only [fmtIAux]
+        split
+        · rfl
+        · rw [ih ((m + 1) / 10) (by omega) f (by omega), ih ((m + 1) / 10) (by omega) m (by omega)]
+
+/-- the defining equation of `'%i'` -/
+theorem fmtI_eq (n : Nat) : fmtI n = if n < 10 then [digitChar n] else fmtI (n / 10) ++ [digitChar (n % 10)] := by
+  unfold fmtI
+  cases n with
+  | zero => simp [fmtIAux]
+  | succ m =>
+    simp only [fmtIAux]
+    split
+    · rfl
+    · rw [fmtIAux_fuel ((m + 1) / 10) m (by omega)]
+
 theorem fmtI_digits : ∀ (n : Nat), ∀ c ∈ fmtI n, c ∈ digits10 := by
   intro n
   induction n using Nat.strong_induction_on with
   | _ n ih =>
     intro c hc
-    rw [fmtI] at hc
+    rw [fmtI_eq] at hc
     split at hc
     · rename_i h
       simp only [List.mem_singleton] at hc
@@ -56,7 +85,7 @@ theorem fmtI_digits : ∀ (n : Nat), ∀ c ∈ fmtI n, c ∈ digits10 := by
         subst hc; exact digitChar_mem _ (by omega)
 
 theorem fmtI_ne_nil (n : Nat) : fmtI n ≠ [] := by
-  rw [fmtI]; split <;> simp
+  rw [fmtI_eq]; split <;> simp
 
 theorem parseDigits_snoc (s : Str) (c : Char) : ∀ acc,
     parseDigits (s ++ [c]) acc = (parseDigits s acc).bind (fun a => (digitVal c).map (fun d => a * 10 + d)) := by
@@ -75,7 +104,7 @@ theorem parseDigits_snoc (s : Str) (c : Char) : ∀ acc,
 theorem parseDigits_fmtI (n : Nat) : parseDigits (fmtI n) 0 = some n := by
   induction n using Nat.strong_induction_on with
   | _ n ih =>
-    rw [fmtI]
+    rw [fmtI_eq]
     split
     · rename_i h
       simp [parseDigits, digitVal_digitChar n h]
